@@ -1,5 +1,5 @@
 import vlib
-from props import protocommon, wirealloc
+from props import protocommon, wirealloc, varint
 from props.common import generic_replay
 
 PROP = "C07"
@@ -14,7 +14,7 @@ ASSUME = ["google.golang.org/protobuf v1.25.0 (dynamicpb) validates the specific
 
 
 def run(tier, seed):
-    return protocommon.run(PROP, tier, seed, RULE, ASSUME, shards=4, isolate=(PROP in ("C03", "C07")), extra_vec=(wirealloc.add if PROP == "C07" else None))
+    return protocommon.run(PROP, tier, seed, RULE + varint.RULES.get(PROP, ""), ASSUME, shards=4, isolate=(PROP in ("C03", "C07")), extra_vec=(varint.both(wirealloc.add, varint.adder(tier)) if PROP == "C07" else None))
 
 
 def replay(path, seed):
